@@ -149,7 +149,7 @@ Example signed_input_nonvacuous :
     /\ toy_sign 1 toy_signed (s2b "ed") 9 a_eddsa act_skip = Ok (toy_signed, 1%nat)
     /\ exists e', toy_sign 1 toy_signed (s2b "ed") 9 a_eddsa act_remove_old = Ok (e', 1%nat) /\ blen (ser e') < blen (ser toy_signed).
 Proof.
-  eexists _, _, _, _. split; [vm_compute; reflexivity|]. split; [repeat split; vm_compute; reflexivity|].
+  eexists _, _, _, _. split; [vm_compute; reflexivity|]. split; [split; [vm_compute; reflexivity|]; split; vm_compute; reflexivity|].
   split; [vm_compute; repeat constructor|]. split; [vm_compute; reflexivity|]. split; [vm_compute; reflexivity|].
   eexists. split; [vm_compute; reflexivity|]. vm_compute. reflexivity.
 Qed.
